@@ -1445,6 +1445,16 @@ static size_t ZSTDMT_createCompressionJob(ZSTDMT_CCtx* mtctx, size_t srcSize, ZS
             mtctx->nextJobID++;
             return 0;
         }
+        if (srcSize == 0) {
+            /* An empty first job writes the frame header and an empty last block.
+             * Completion of a job is observed as (consumed == src.size), which holds for an empty job
+             * before a worker has even started it : nobody could wait for it (ZSTDMT_waitForAllJobsCompleted(),
+             * blocking flush). It is tiny : run it here instead of posting it. */
+            assert(endOp == ZSTD_e_end);
+            ZSTDMT_compressionJob(&mtctx->jobs[jobID]);
+            mtctx->nextJobID++;
+            return 0;
+        }
     }
 
     DEBUGLOG(5, "ZSTDMT_createCompressionJob: posting job %u : %u bytes  (end:%u, jobNb == %u (mod:%u))",
